@@ -107,6 +107,17 @@ fn escape_table() -> Vec<(String, Option<String>)> {
     for bad in ["\\q", "\\1", "\\x4", "\\x4g", "\\u004", "\\u00g0", "\\U0000004", "\\c", "\\'"] {
         v.push((bad.to_string(), None));
     }
+    // digits and letters that are not ASCII hex digits: Unicode decimal digits of other scripts,
+    // fullwidth forms, superscripts and fractions (`char::is_numeric` / `is_alphanumeric` say yes)
+    for d in ['\u{663}', '\u{6f3}', '\u{966}', '\u{ff13}', '\u{ff21}', '\u{ff46}', '\u{b2}', '\u{bd}', '\u{2163}', '\u{1d7d8}', '\u{430}', '\u{3b1}'] {
+        v.push((format!("\\x{d}{d}"), None));
+        v.push((format!("\\x4{d}"), None));
+        v.push((format!("\\x{d}1"), None));
+        v.push((format!("\\u{d}{d}{d}{d}"), None));
+        v.push((format!("\\u004{d}"), None));
+        v.push((format!("\\U{d}{d}{d}{d}{d}{d}{d}{d}"), None));
+        v.push((format!("\\U0000004{d}"), None));
+    }
     // characters whose low byte / low bits look like a valid escape letter are not escapes
     for e in "0abtnvfre \"/\\N_LPxuU".chars() {
         for off in [0x100u32, 0x200, 0x2000, 0x10000] {
